@@ -408,14 +408,40 @@ def r44(report, index):
              "'es5', 'pretty_print', 'minify_print')",
              'the es5 helper is not built from the es5 parser and the '
              'pretty_print / minify_print functions', where='__init__.py')
+    # ParserUnparserFactory evaluated from its source: which callables
+    # reach RawParserUnparserFactory
     puf = need_function(fac, 'ParserUnparserFactory')
-    t = ast.unparse(puf)
-    ok = "'.parsers.' + module_name" in t and ".parse" in t and \
-        "'.unparsers.' + module_name" in t and \
-        'getattr(unparser_module, name)' in t
-    r4.check(ok, 'ParserUnparserFactory', 'factory.ParserUnparserFactory',
-             'the factory does not resolve parsers.<name>.parse and '
-             'unparsers.<name>.<attr>')
+    from engine.absint import Evaluator, Obj, Raised
+    got = []
+
+    def fake_import(name):
+        return Obj('module', parse=('callable', name + '.parse'),
+                   pretty_print=('callable', name + '.pretty_print'),
+                   minify_print=('callable', name + '.minify_print'))
+
+    def fake_raw(*a, **k):
+        got.append((a, k))
+        return 'the factory object'
+    ev = Evaluator(fac, None, {}, {
+        'import_module': fake_import, 'RawParserUnparserFactory': fake_raw,
+        'getattr': lambda o, n, *d: getattr(o, n) if o.has(n) else d[0],
+        'len': len})
+    ev.inline_module_functions = False
+    try:
+        ret, _ = ev.call(puf, ['es5', 'pretty_print', 'minify_print'])
+    except Raised as e:
+        ret = 'raises %s' % e.text
+    want = (('es5', ('callable', 'calmjs.parse.parsers.es5.parse'),
+             ('callable', 'calmjs.parse.unparsers.es5.pretty_print'),
+             ('callable', 'calmjs.parse.unparsers.es5.minify_print')), {})
+    ok = ret == 'the factory object' and len(got) == 1 and (
+        tuple(got[0][0]), got[0][1]) == want
+    r4.check(ok, 'ParserUnparserFactory', 'factory.ParserUnparserFactory('
+             "'es5', 'pretty_print', 'minify_print')",
+             'the factory does not hand parsers.<name>.parse and '
+             'unparsers.<name>.<attr> to RawParserUnparserFactory: %r '
+             '(returns %r)' % (got, ret),
+             where='factory.py:ParserUnparserFactory')
     report.not_decided.append(
         'equality of the produced fragment sequences as values (runtime '
         'data); the argument is: no state outlives a call (R14.2/R14.3) and '
